@@ -110,7 +110,10 @@ impl SourceFileAnalyzer {
                         is_stored = true;
                     }
                 }
-                Err(err) => self.messages.push(DiagnosticMessage::Error(i, err.into())),
+                Err(err) => {
+                    source_line_ranges.tokenization_error_range = Some(err.string_range_in(line));
+                    self.messages.push(DiagnosticMessage::Error(i, err.into()))
+                }
             }
             // Program locations must map to the file line whose tokens are actually
             // in the program, so a line that wasn't stored must not shadow an
